@@ -333,7 +333,7 @@ CHECKS["C18"] = dict(
                 "IDFromRequest, a pre-seeded id) must agree and no two requests of a round may share one; the base logger must be unchanged; and every "
                 "AccessHandler's (status, size), called exactly once also when the handler panics with http.ErrAbortHandler, must equal what the fake "
                 "ResponseWriter recorded for every WriteHeader / Write (full, empty, short, failing) / ReadFrom (also from a failing source) / Flush / "
-                "panic script up to length 3 (quick) / 5 (thorough), enumerated exhaustively against every capability set across the rounds, random "
+                "informational-status / panic script up to length 3 (quick) / 4 (thorough), enumerated exhaustively against every capability set across the rounds, random "
                 "longer scripts beyond."),
     technique="runtime monitoring: per-request marker isolation + response-script enumeration against recording fake ResponseWriters, race detector",
     stages=lambda tier: [dict(variant="vh", cmd="c18", shards=8, timeout=3000),
